@@ -24,6 +24,7 @@ import RosuModel.Model.ManiaPatternWire
 import RosuModel.Model.ConvOsuWire
 import RosuModel.Model.ConvCatchWire
 import RosuModel.Model.SkillWire
+import RosuModel.Model.TaikoPreWire
 
 open Rosu
 
@@ -97,6 +98,7 @@ def handle (line : String) : String :=
   | ["OCONV", refl, version, take, cs, ar, clock, sl, objs] => ConvOsu.Wire.handleOCONV refl version take cs ar clock sl objs
   | ["LTT", start, dur, ns] => ConvOsu.Wire.handleLTT start dur ns
   | ["CCONV", hr, refl, objs] => ConvCatch.Wire.handleCCONV hr refl objs
+  | ["TKPRE", clock, take, objs] => TaikoPre.handleTKPRE clock take objs
   | _ => "bad-op"
 
 partial def loop (h : IO.FS.Stream) (out : IO.FS.Stream) : IO Unit := do
